@@ -81,25 +81,21 @@ def meshH (j : Json) : Except String Json := do
     ("neighbors", jList nb ids),
     ("flags", jList fl ids)])
 
-/-- {"axes":..,"bounds":[[lo,hi]..] (exact) or "bounds_f" (bit patterns)} -> bounds of every sub-grid
-and the centres of its cells along every axis -/
+/-- {"axes":..,"kind":..,"bounds":[[lo,hi]..] (exact)} -> bounds of every sub-grid, the centres of its
+cells along every axis and its volume coefficient -/
 def boundsH (j : Json) : Except String Json := do
   let m ← getMesh j
   let ids := List.range m.len
-  match fldOpt j "bounds_f" with
-  | some bf =>
-    let bs ← getL (fun p => do let l ← getL getF p; match l with | [a, b] => pure (a, b) | _ => throw "bad bounds") bf
-    pure (jList (fun id => jList (fun (p : Float × Float) => Json.arr #[jF p.1, jF p.2]) (subBounds bs m.axes (m.id2idx id))) ids)
-  | none =>
-    let bq ← fld j "bounds"
-    let bs ← getL (fun p => do let l ← getL getQ p; match l with | [a, b] => pure (a, b) | _ => throw "bad bounds") bq
-    let one (id : Nat) : Json :=
-      let sb : List (Rat × Rat) := subBounds bs m.axes (m.id2idx id)
-      let shp := m.subShape id
-      let coords := (sb.zip shp).map fun (p, n) => (List.range n).map fun c => cellCoord p.1 p.2 n c
-      Json.mkObj [("bounds", jList (fun (p : Rat × Rat) => Json.arr #[jQ p.1, jQ p.2]) sb),
-                  ("coords", jList jQs coords)]
-    pure (jList one ids)
+  let kind ← kindOf (← fldS j "kind")
+  let bq ← fld j "bounds"
+  let bs ← getL (fun p => do let l ← getL getQ p; match l with | [a, b] => pure (a, b) | _ => throw "bad bounds") bq
+  let one (id : Nat) : Json :=
+    let sb : List (Rat × Rat) := subBounds bs m.axes (m.id2idx id)
+    let shp := m.subShape id
+    let coords := (sb.zip shp).map fun (p, n) => (List.range n).map fun c => cellCoord p.1 p.2 n c
+    Json.mkObj [("bounds", jList (fun (p : Rat × Rat) => Json.arr #[jQ p.1, jQ p.2]) sb),
+                ("coords", jList jQs coords), ("vol", jQ (volCoef kind sb))]
+  pure (jList one ids)
 
 /-- {"axes":..,"ghost":bool,"data":[ints] (row-major, base array shape)} -> per node shape and data -/
 def extractH (j : Json) : Except String Json := do
